@@ -134,7 +134,9 @@ func (p *parser) parseRegExpLiteral() *ast.RegExpLiteral {
 	}
 
 	flags := ""
-	if p.token == token.IDENTIFIER { // gim
+	// RegularExpressionFlags (7.8.5) are part of the literal: an identifier
+	// on a later line is the next statement.
+	if p.token == token.IDENTIFIER && !p.implicitSemicolon { // gim
 		flags = p.literal
 		endOffset = p.chrOffset
 		p.next()
